@@ -701,6 +701,9 @@ C08Nest(sh) ==
 (* ---- the state machine -------------------------------------------------------------------------------- *)
 (* the chains of table "c08chain": block h (1..N) produces job.blocks[h] records; Sizes is the alphabet of counts.  *)
 (* Every chain of length N is printed once (the state graph is a tree); -simulate gives seeded long chains.       *)
+(* A process kill between the store commits of a block followed by recovery is a stuttering step of this          *)
+(* abstraction (the block ends up committed; C12 owns recovery): the driver injects it into some chains and then  *)
+(* requires the replayed block to be served like any other.                                                       *)
 ChainJobs == {[k |-> "chain", n |-> 0, m |-> 0, blocks |-> <<>>]}
 
 Jobs == IF Table = "c06" THEN C06Jobs
